@@ -517,7 +517,9 @@ Fixpoint es_lines (lbls : labels) (nows : list Z) (body : list esline) : list ca
 Definition calls_es (ck : clock) (body : list esline) : list call := es_lines [] (ck_nows ck) body.
 
 (* ---------------------------------------------------------------- Datadog metrics: datadogMetricsJsonUnmarshal.go *)
-Record ddseries := DS { dm_metric : option string; dm_resources : list labels; dm_points : list (Z * N) }.  (* (s, bits) *)
+(* dm_points: (timestamp in s, bits); dm_stamped: the values of the LEADING points of the points array that carry no timestamp:
+   tsNs := time.Now().UnixNano() is read once when the array begins and stays until a point brings its own *)
+Record ddseries := DS { dm_metric : option string; dm_resources : list labels; dm_points : list (Z * N); dm_stamped : list N }.
 
 Fixpoint resource_labels (i : N) (rs : list labels) : labels :=
   match rs with
@@ -527,10 +529,13 @@ Fixpoint resource_labels (i : N) (rs : list labels) : labels :=
   end.
 Definition ddseries_labels (s : ddseries) : labels :=
   (match dm_metric s with Some m => [("__name__"%string, m)] | None => [] end) ++ resource_labels 0%N (dm_resources s).
-Definition calls_ddmet (body : list ddseries) : list call :=
-  map (fun s => let n := List.length (dm_points s) in
-                K (ddseries_labels s) (map (fun p => wrap64 (fst p * 1000000000)) (dm_points s))
-                  (repeat EmptyString n) (map snd (dm_points s)) (fast_fill 0%N n TYPE_METRIC)) body.
+(* (nanoseconds, bits) of every point of the series, now = the clock reading of its points array *)
+Definition dm_all (now : Z) (s : ddseries) : list (Z * N) :=
+  map (fun v => (now, v)) (dm_stamped s) ++ map (fun p => (wrap64 (fst p * 1000000000), snd p)) (dm_points s).
+Definition calls_ddmet (ck : clock) (body : list ddseries) : list call :=
+  map (fun p => K (ddseries_labels (snd p)) (map fst (dm_all (fst p) (snd p)))
+                  (repeat EmptyString (List.length (dm_all (fst p) (snd p)))) (map snd (dm_all (fst p) (snd p)))
+                  (fast_fill 0%N (List.length (dm_all (fst p) (snd p))) TYPE_METRIC)) (clocked (ck_nows ck) body).
 
 (* ---------------------------------------------------------------- OTLP logs: otlplogs.go *)
 (* attribute values and the body of a record are any-value trees: model/AnyValue.v (shared with property C04, which owns
@@ -585,14 +590,14 @@ Definition calls_otlp (body : list oreslog) : list call :=
 (* ---------------------------------------------------------------- the seven parsers *)
 Inductive body :=
 | BLoki (l : list (list lmember)) | BLokiPb (l : list lstream) | BPrw (l : list pseries)
-| BInflux (precision : Z) (ck : clock) (l : list iline) | BDDLog (ck : clock) (l : list ddlog) | BDDMet (l : list ddseries)
+| BInflux (precision : Z) (ck : clock) (l : list iline) | BDDLog (ck : clock) (l : list ddlog) | BDDMet (ck : clock) (l : list ddseries)
 | BOtlp (l : list oreslog)
 | BCf (ddsource : string) (ck : clock) (l : list cfline) | BEs (ck : clock) (l : list esline).
 
 Definition calls_of (flush_limit : N) (b : body) : list call :=
   match b with
   | BLoki l => calls_loki_json l | BLokiPb l => calls_loki_pb l | BPrw l => calls_prw flush_limit l
-  | BInflux p ck l => calls_influx p ck l | BDDLog ck l => calls_ddlog ck l | BDDMet l => calls_ddmet l | BOtlp l => calls_otlp l
+  | BInflux p ck l => calls_influx p ck l | BDDLog ck l => calls_ddlog ck l | BDDMet ck l => calls_ddmet ck l | BOtlp l => calls_otlp l
   | BCf src ck l => calls_cf src ck l | BEs ck l => calls_es ck l
   end.
 
@@ -699,9 +704,9 @@ Fixpoint es_entry_lines (before : list esline) (body : list esline) : list (labe
   end.
 Definition entries_es (ck : clock) (body : list esline) : list entry :=
   map (fun p => E (fst (snd p)) (fst p) (snd (snd p)) 0%N TYPE_LOG) (clocked (ck_nows ck) (es_entry_lines [] body)).
-Definition entries_ddmet (body : list ddseries) : list entry :=
-  flat_map (fun s => map (fun p => E (ddseries_labels s) (wrap64 (fst p * 1000000000)) EmptyString (snd p) TYPE_METRIC)
-                         (dm_points s)) body.
+Definition entries_ddmet (ck : clock) (body : list ddseries) : list entry :=
+  flat_map (fun p => map (fun q => E (ddseries_labels (snd p)) (fst q) EmptyString (snd q) TYPE_METRIC) (dm_all (fst p) (snd p)))
+           (clocked (ck_nows ck) body).
 Definition entries_otlp (body : list oreslog) : list entry :=
   flat_map (fun rl => flat_map (fun sl =>
     map (fun r => E (orecord_labels (add_attrs [] (if orl_has rl then orl_attrs rl else []))
@@ -711,7 +716,7 @@ Definition entries_otlp (body : list oreslog) : list entry :=
 Definition entries_of (b : body) : list entry :=
   match b with
   | BLoki l => entries_loki_json l | BLokiPb l => entries_loki_pb l | BPrw l => entries_prw l
-  | BInflux p ck l => entries_influx p ck l | BDDLog ck l => entries_ddlog ck l | BDDMet l => entries_ddmet l | BOtlp l => entries_otlp l
+  | BInflux p ck l => entries_influx p ck l | BDDLog ck l => entries_ddlog ck l | BDDMet ck l => entries_ddmet ck l | BOtlp l => entries_otlp l
   | BCf src ck l => entries_cf src ck l | BEs ck l => entries_es ck l
   end.
 
@@ -848,7 +853,7 @@ Definition spec_groups (b : body) : list nat :=
 
 (* the clock of a body whose decoder reads it *)
 Definition body_clock (b : body) : option clock :=
-  match b with BInflux _ ck _ | BDDLog ck _ | BCf _ ck _ | BEs ck _ => Some ck | _ => None end.
+  match b with BInflux _ ck _ | BDDLog ck _ | BDDMet ck _ | BCf _ ck _ | BEs ck _ => Some ck | _ => None end.
 Definition body_clock_ok (b : body) : bool := match body_clock b with Some ck => clock_okb ck | None => true end.
 
 Definition rows_only (c : case) : bool := match c_cache c with CShared => true | _ => is_influx (c_body c) end.
